@@ -17,6 +17,7 @@
 //   eigen3x3 / eigen4x4 : jacobiEigenSolver, min/maxEigenVector on all symmetric L(2) 3x3 and L(1) 4x4 matrices
 //   procrustes          : lattice point sets related by cube rotations x translations x scales; unrelated sets; mirror
 //                         images of spanning sets; related sets plus a zero-weight outlier; all weights zero
+//   factor-outputs-into-dirty-objects : every out-parameter entry point with its outputs pre-filled (primes / NaN) vs fresh, bitwise (c12_dirty.cpp)
 // Oracles are written from the definitions in long double / exact integers (c11_ref.hpp, c12.hpp) and never call
 // the library. Tolerances are stated at the head of each TU.
 #include "c12.hpp"
@@ -30,6 +31,7 @@ int main (int argc, char** argv)
     // cheap, branch-rich stages first; the two big factor sweeps last
     c12::stage_shrt3d_float (0);
     c12::stage_shrt3d_double (0);
+    c12::stage_dirty ();
     c12::stage_shrt2d ();
     c12::stage_eigen ();
     c12::stage_svd ();
